@@ -194,17 +194,18 @@ theorem Coherent.exists_eq (w : Int) (f : Bool)
     apply hpre
     exact (hc.hasPre_iff hwf w).mp ⟨w - Bo z b (bisectRight z.wall0 w), by omega⟩
 
-/-- **resolve_imaginary inside a gap.** `w` lies in the gap in front of segment `k` (`k` = fold=0
-    count); the gap is at most 24 h wide; in wall-clock terms the previous change took effect at
-    least 24 h before the gap starts and the next one at least 24 h after it ends.  Then the
-    result is `w` moved forward by the gap width, and it has a pre-image. -/
+/-- **resolve_imaginary inside a gap** (after the D-C05g repair: the gap is measured by a UTC round trip).
+    `w` lies in the gap opened by transition `k-1` (`k` = fold-0 count); the previous transition is at least one gap
+    width earlier (UTC) and the next change takes effect (wall clock) at least one gap width after the gap ends.
+    Then the result is `w` moved forward by the gap width — ANY width — and it has a pre-image. -/
 theorem Coherent.resolve_gap (w : Int) (f : Bool)
     (hk0 : 0 < bisectRight z.wall0 w) (hgap : w < Lo z b (bisectRight z.wall0 w - 1))
-    (hwidth : Lo z b (bisectRight z.wall0 w - 1) - Hi z b (bisectRight z.wall0 w - 1) ≤ 86400)
     (hnext : bisectRight z.wall0 w < z.utc.length →
-      Lo z b (bisectRight z.wall0 w - 1) + 86400 ≤ Hi z b (bisectRight z.wall0 w))
+      Lo z b (bisectRight z.wall0 w - 1) + (Lo z b (bisectRight z.wall0 w - 1) - Hi z b (bisectRight z.wall0 w - 1))
+        ≤ Hi z b (bisectRight z.wall0 w))
     (hprev : 1 < bisectRight z.wall0 w →
-      Hi z b (bisectRight z.wall0 w - 2) + 86400 ≤ Hi z b (bisectRight z.wall0 w - 1))
+      U z (bisectRight z.wall0 w - 2) + (Lo z b (bisectRight z.wall0 w - 1) - Hi z b (bisectRight z.wall0 w - 1))
+        ≤ U z (bisectRight z.wall0 w - 1))
     (hcov : Covered z s (bisectRight z.wall0 w)) :
     resolveImaginary z.ops ⟨w, f⟩ =
       .ok ⟨w + (Bo z b (bisectRight z.wall0 w) - Bo z b (bisectRight z.wall0 w - 1)), false⟩ ∧
@@ -221,45 +222,45 @@ theorem Coherent.resolve_gap (w : Int) (f : Bool)
   have hex := hc.exists_eq hwf w f hcov (by rw [hk1]; exact hcov)
   have hfalse : ¬ (bisectRight z.wall0 w = 0 ∨ Lo z b (bisectRight z.wall0 w - 1) ≤ w) := by omega
   rw [decide_eq_false hfalse] at hex
-  -- the two probes
-  have hplus : bisectRight z.wall0 (w + 86400) = bisectRight z.wall0 w := by
-    rw [hc.count_w0 hwf _ _ hkn]
-    exact ⟨fun h0 => by have := k1 h0; omega, fun hn => by have := hnext hn; omega⟩
-  have hminus : bisectRight z.wall0 (w - 86400) = bisectRight z.wall0 w - 1 := by
-    rw [hc.count_w0 hwf _ _ (by omega)]
+  -- the offset read for w (either fold) is the NEW one
+  have hkf : bisectRight (wallOf z f) w = bisectRight z.wall0 w := by cases f <;> simp [wallOf, hk1]
+  have ho : utcoffset z ⟨w, f⟩ = .ok (Bo z b (bisectRight z.wall0 w)) := by
+    have := hc.utcoffset_wall w f (by rw [hkf]; exact hcov)
+    rw [hkf] at this; exact this
+  -- the round trip lands in the segment BEFORE the transition
+  have hhi := k1 hk0
+  have e1 : bisectRight z.wall0 w - 1 + 1 = bisectRight z.wall0 w := by omega
+  have hcnt : bisectRight z.utc (w - Bo z b (bisectRight z.wall0 w)) = bisectRight z.wall0 w - 1 := by
+    rw [hc.count_utc hwf _ _ (by omega)]
     refine ⟨fun h0 => ?_, fun _ => ?_⟩
     · have := hprev (by omega)
-      have := k1 hk0
       have e : bisectRight z.wall0 w - 1 - 1 = bisectRight z.wall0 w - 2 := by omega
+      simp only [Lo, Hi, e1] at this hhi ⊢
       rw [e]; omega
-    · have := k1 hk0; omega
-  have hc1 : utcoffset z ⟨w + 86400, false⟩ = .ok (Bo z b (bisectRight z.wall0 w)) := by
-    have := hc.utcoffset_wall (w + 86400) false (by show Covered z s (bisectRight z.wall0 _); rw [hplus]; exact hcov)
-    simpa [wallOf, hplus] using this
-  have hc2 : utcoffset z ⟨w - 86400, false⟩ = .ok (Bo z b (bisectRight z.wall0 w - 1)) := by
-    have := hc.utcoffset_wall (w - 86400) false
-      (by show Covered z s (bisectRight z.wall0 _); rw [hminus]; exact Or.inl (by omega))
-    simpa [wallOf, hminus] using this
+    · simp only [Lo, e1] at hgap; omega
+  obtain ⟨f', hfu⟩ := hc.fromutc_wall (w - Bo z b (bisectRight z.wall0 w)) (by rw [hcnt]; exact Or.inl (by omega))
+  rw [hcnt] at hfu
+  have hpos : 0 < Bo z b (bisectRight z.wall0 w) - Bo z b (bisectRight z.wall0 w - 1) := by
+    simp only [Lo, Hi, e1] at hgap hhi; omega
   refine ⟨?_, ?_⟩
   · unfold resolveImaginary
     simp only [hex, bind, Except.bind, pure, Except.pure, Bool.false_eq_true, if_false]
-    have e1 : (TzFile.ops z).utcoffset = utcoffset z := rfl
-    simp only [e1, hc1, hc2]
+    have e2 : (TzFile.ops z).utcoffset = utcoffset z := rfl
+    have e3 : (TzFile.ops z).fromutc = fromutc z := rfl
+    simp only [e2, e3, ho, hfu]
+    congr 2
+    unfold Py.iabs
+    split <;> omega
   · refine ⟨w + (Bo z b (bisectRight z.wall0 w) - Bo z b (bisectRight z.wall0 w - 1))
               - Bo z b (bisectRight z.wall0 w), ?_⟩
     rw [hc.seg_pre hwf _ _ hkn]
     · omega
     · intro _
-      simp only [Lo, Hi] at hwidth k1 ⊢
-      have := k1 hk0
-      have e : bisectRight z.wall0 w - 1 + 1 = bisectRight z.wall0 w := by omega
-      simp only [e] at hwidth ⊢
+      simp only [Lo, Hi, e1] at hhi ⊢
       omega
     · intro hn
       have := hnext hn
-      simp only [Lo, Hi] at hwidth this hgap ⊢
-      have e : bisectRight z.wall0 w - 1 + 1 = bisectRight z.wall0 w := by omega
-      simp only [e] at hwidth this hgap
+      simp only [Lo, Hi, e1] at this hgap hhi ⊢
       omega
 
 end
